@@ -14,3 +14,7 @@ __attribute__((weak)) uint_fast64_t verif_now(void)
 	gettimeofday(&tv, NULL);
 	return (uint_fast64_t)tv.tv_sec * 1000000U + tv.tv_usec;
 }
+#ifndef VERIF_BATCH_DEFINED
+#define VERIF_BATCH_DEFINED
+__attribute__((weak)) unsigned verif_batch(unsigned dflt) { return dflt; }
+#endif
